@@ -1,7 +1,141 @@
-/- Line-protocol engine for C10 — stub, to be filled in. -/
-import CV.Proto
+/-
+Line-protocol engine for C10 (conditional writes). See go/overlay/internal/verifharness/c10.
+
+Two worlds are kept side by side: `s` is driven through the `state.Store` methods
+(`CV.Cas.storeApply`), `f` through the raft command handlers of the FSM (`CV.Cas.fsmApply`).
+
+  <w> <cmd> <raft-index> <args…>      one command, answer = canonical result
+  <w> dump                            canonical projection of the whole modelled state
+
+Strings are `CV.encS` tokens; list elements are separated by `,`, fields of an element by `;`.
+-/
+import CV.Cas
 namespace CV.Engine.C10
-open CV
-def step (_ : Unit) (_toks : List String) : Unit × String := ((), "bad-op")
-def engine : Engine := { State := Unit, init := (), step := step }
+open CV CV.Cas
+
+def nat? (t : String) : Option Nat := t.toNat?
+
+def optS (t : String) : Option (Option String) :=
+  if t == "-" then some none else (decS t).map some
+
+def parseTOp (tok : String) : Option TOp :=
+  match tok.splitOn ";" with
+  | ["ks", k, v, fl] => do pure (.kvSet (← decS k) ⟨← decS v, ← nat? fl⟩)
+  | ["kd", k] => do pure (.kvDelete (← decS k))
+  | ["kc", k, v, fl, c] => do pure (.kvCas (← decS k) ⟨← decS v, ← nat? fl⟩ (← nat? c))
+  | ["kdc", k, c] => do pure (.kvDeleteCas (← decS k) (← nat? c))
+  | ["ns", n, a] => do pure (.nodeSet (← decS n) (← decS a))
+  | ["nd", n] => do pure (.nodeDelete (← decS n))
+  | ["nc", n, a, c] => do pure (.nodeCas (← decS n) (← decS a) (← nat? c))
+  | ["ndc", n, c] => do pure (.nodeDeleteCas (← decS n) (← nat? c))
+  | ["ss", n, id, p] => do pure (.svcSet (← decS n) (← decS id) (← nat? p))
+  | ["sd", n, id] => do pure (.svcDelete (← decS n) (← decS id))
+  | ["sc", n, id, p, c] => do pure (.svcCas (← decS n) (← decS id) (← nat? p) (← nat? c))
+  | ["sdc", n, id, c] => do pure (.svcDeleteCas (← decS n) (← decS id) (← nat? c))
+  | ["cs", n, id, sv, o] => do pure (.chkSet (← decS n) (← decS id) ⟨← decS sv, ← decS o⟩)
+  | ["cd", n, id] => do pure (.chkDelete (← decS n) (← decS id))
+  | ["cc", n, id, sv, o, c] => do pure (.chkCas (← decS n) (← decS id) ⟨← decS sv, ← decS o⟩ (← nat? c))
+  | ["cdc", n, id, c] => do pure (.chkDeleteCas (← decS n) (← decS id) (← nat? c))
+  | _ => none
+
+def parseRoot (tok : String) : Option RootReq :=
+  match tok.splitOn ";" with
+  | [id, name, a] => do pure (← decS id, ⟨← decS name, ← decBool a⟩)
+  | _ => none
+
+def parseTok (tok : String) : Option TokReq :=
+  match tok.splitOn ";" with
+  | [a, s, d, m] => do pure ⟨← decS a, ← decS s, ← decS d, ← nat? m⟩
+  | _ => none
+
+/-- `<cmd> <idx> args…` ↦ (raft index, command) -/
+def parseCmd : List String → Option (Nat × Cmd)
+  | ["kvset", i, k, v, fl] => do pure (← nat? i, .kvSet (← decS k) ⟨← decS v, ← nat? fl⟩)
+  | ["kvdel", i, k] => do pure (← nat? i, .kvDelete (← decS k))
+  | ["kvcas", i, k, v, fl, c] => do pure (← nat? i, .kvCas (← decS k) ⟨← decS v, ← nat? fl⟩ (← nat? c))
+  | ["kvdelcas", i, k, c] => do pure (← nat? i, .kvDeleteCas (← decS k) (← nat? c))
+  | ["txn", i, ops] => do pure (← nat? i, .txn (← (decList ops).mapM parseTOp))
+  | ["cfgset", i, kd, n, v] => do pure (← nat? i, .cfgSet (← decS kd, ← decS n) ⟨← decS v, ""⟩)
+  | ["cfgdel", i, kd, n] => do pure (← nat? i, .cfgDelete (← decS kd, ← decS n))
+  | ["cfgcas", i, kd, n, v, st, c] => do
+      pure (← nat? i, .cfgCas (← decS kd, ← decS n) ⟨← decS v, ← decS st⟩ (← nat? c))
+  | ["cfgstcas", i, kd, n, v, st, c] => do
+      pure (← nat? i, .cfgStatusCas (← decS kd, ← decS n) ⟨← decS v, ← decS st⟩ (← nat? c))
+  | ["cfgdelcas", i, kd, n, c] => do pure (← nat? i, .cfgDeleteCas (← decS kd, ← decS n) (← nat? c))
+  | ["caset", i, p, cl] => do pure (← nat? i, .caSet ⟨← decS p, ← decS cl⟩)
+  | ["cacas", i, p, cl, c] => do pure (← nat? i, .caCas ⟨← decS p, ← decS cl⟩ (← nat? c))
+  | ["rootscas", i, c, rs] => do pure (← nat? i, .rootsCas (← nat? c) (← (decList rs).mapM parseRoot))
+  | ["rootscfg", i, rc, rs, cc, p, cl] => do
+      pure (← nat? i, .rootsAndConfig (← nat? rc) (← (decList rs).mapM parseRoot) (← nat? cc) ⟨← decS p, ← decS cl⟩)
+  | ["apset", i, v] => do pure (← nat? i, .apSet (← nat? v))
+  | ["apcas", i, v, c] => do pure (← nat? i, .apCas (← nat? v) (← nat? c))
+  | ["fg", i, p, st, ep, es] => do pure (← nat? i, .fg (← optS p) (← optS st) (← nat? ep) (← nat? es))
+  | ["tokset", i, cas, ts] => do pure (← nat? i, .tokSet (← decBool cas) (← (decList ts).mapM parseTok))
+  | ["tokdel", i, accs] => do pure (← nat? i, .tokDelete (← (decList accs).mapM decS))
+  | _ => none
+
+def errName : Err → String
+  | .casMismatch => "cas-mismatch" | .stale => "stale"
+  | .missingNode => "missing-node" | .missingService => "missing-service"
+  | .rootsActive => "roots-active" | .missingRootId => "missing-root-id"
+  | .fgNoStatus => "fg-no-status" | .fgNoPolicy => "fg-no-policy"
+  | .tokNoSecret => "tok-no-secret" | .tokNoAccessor => "tok-no-accessor"
+  | .tokSecretImmutable => "tok-secret-immutable"
+
+def tresStr : TRes → String
+  | .kv k fl c m => s!"kv;{encS k};{fl};{c};{m}"
+  | .node n c m => s!"node;{encS n};{c};{m}"
+  | .svc _ id c m => s!"svc;{encS id};{c};{m}"
+  | .chk n id c m => s!"chk;{encS n};{encS id};{c};{m}"
+
+def resStr : Res → String
+  | .unit => "nil"
+  | .ok b => "ok:" ++ encBool b
+  | .err e => "err:" ++ errName e
+  | .txnOk rs => "txn-ok:" ++ encList (rs.map tresStr)
+  | .txnErr es => "txn-err:" ++ encList (es.map fun (n, e) => s!"{n};{errName e}")
+
+/-- rows are printed as strings and sorted as strings (ASCII only), the Go side does the same -/
+def sorted (l : List String) : String := encList (l.mergeSort (fun a b => !(decide (b < a))))
+
+def cellStr {α : Type} (f : α → String) : Cell α → String
+  | none => "-"
+  | some e => s!"{f e.val};{e.create};{e.modify}"
+
+def dumpStr (s : Cas.State) : String :=
+  unwords [
+    "kv=" ++ sorted (s.kvs.map fun (k, e) => s!"{encS k};{encS e.val.value};{e.val.flags};{e.create};{e.modify}"),
+    "tomb=" ++ sorted (s.tombs.map fun (k, i) => s!"{encS k};{i}"),
+    "node=" ++ sorted (s.nodes.map fun (k, e) => s!"{encS k};{encS e.val};{e.create};{e.modify}"),
+    "svc=" ++ sorted (s.svcs.map fun (k, e) => s!"{encS k.1};{encS k.2};{e.val};{e.create};{e.modify}"),
+    "chk=" ++ sorted (s.chks.map fun (k, e) =>
+        s!"{encS k.1};{encS k.2};{encS e.val.svcId};{encS e.val.output};{e.create};{e.modify}"),
+    "cfg=" ++ sorted (s.cfgs.map fun (k, e) =>
+        s!"{encS k.1};{encS k.2};{encS e.val.val};{encS e.val.status};{e.create};{e.modify}"),
+    "cac=" ++ cellStr (fun v => s!"{encS v.provider};{encS v.cluster}") s.caConfig,
+    "car=" ++ sorted (s.roots.map fun (k, e) => s!"{encS k};{encS e.val.name};{encBool e.val.active};{e.create};{e.modify}"),
+    "ap=" ++ cellStr (fun (v : Nat) => toString v) s.autopilot,
+    "fgp=" ++ cellStr (fun (v : String) => encS v) s.fgPolicy,
+    "fgs=" ++ cellStr (fun v => s!"{encS v.digest};{v.policyIndex}") s.fgStatus,
+    "tok=" ++ sorted (s.toks.map fun (k, e) => s!"{encS k};{encS e.val.secret};{encS e.val.desc};{e.create};{e.modify}"),
+    "idx=" ++ sorted (s.idx.map fun (k, v) => s!"{k};{v}")
+  ]
+
+def step (st : Cas.State × Cas.State) (toks : List String) : (Cas.State × Cas.State) × String :=
+  match toks with
+  | ["s", "dump"] => (st, dumpStr st.1)
+  | ["f", "dump"] => (st, dumpStr st.2)
+  | ["reset"] => (({}, {}), "ok")
+  | "s" :: rest =>
+    match parseCmd rest with
+    | some (i, c) => let o := storeApply st.1 i c; ((o.state, st.2), resStr o.res)
+    | none => (st, "bad-op")
+  | "f" :: rest =>
+    match parseCmd rest with
+    | some (i, c) => let o := fsmApply st.2 i c; ((st.1, o.state), resStr o.res)
+    | none => (st, "bad-op")
+  | _ => (st, "bad-op")
+
+def engine : Engine := { State := Cas.State × Cas.State, init := ({}, {}), step := step }
+
 end CV.Engine.C10
